@@ -21,10 +21,11 @@ from ..treeutil import K, dump
 PROP = "C03"
 LEVEL = "exploration"
 
-CONT = ["x", "{{t|a}}", "[[l|m]]", "'''b'''", "''i''", '<span class="c">s</span>', "a!b", "x y", "{{lc:X}}", "{{#if:x|y}}"]
+CONT = ["x", "{{t|a}}", "[[l|m]]", "'''b'''", "''i''", '<span class="c">s</span>', "a!b", "x y", "{{lc:X}}", "{{#if:x|y}}", "x=1", "{{t|k=v}}", "{{#if:x|a!!b}}", "{{{p|c!!d}}}"]
 ATTRS = [{}, {"class": "c"}, {"style": "s-1", "id": "i2"}, {"class": "a b"}]
 HTML_SKIP = {"pre", "nowiki", "section", "noinclude", "includeonly", "onlyinclude", "math", "chem", "ce", "hiero", "score",
              "syntaxhighlight", "source", "templatestyles", "timeline", "gallery", "imagemap", "inputbox", "poem"}
+URLS = ["http://x.y/a.", "https://x.y/?q=1&r=2,", "//x.y/p!", "ftp://x.y/a?", "http://x.y/a_(b)", "mailto:a@b.org", "http://x.y/a;b"]
 ARG_ATOMS = ["text", " pad ", "{{c|1}}", "[[n]]", "k=v", "", "a b", "x:y", "2", "\n x=1", "\n* b", "\n", ":c", "[[n]]\n q", "{{lc:X}}", "{{#if:x|y|z}}"]
 
 
@@ -36,25 +37,28 @@ def build(r, c, sep, cap, tattr, rattr, cattr, hdr, cont):
     L = ["{|" + (" " + attrstr(tattr) if tattr else "")]
     if cap:
         L.append("|+" + (" " + attrstr(cap[1]) + " | " if cap[1] else "") + cap[0])
+    norow = sep.endswith("_norow")      # the first row is not introduced by "|-" (legal; directly after "{|" or the caption)
     for i in range(r):
-        L.append("|-" + (" " + attrstr(rattr) if rattr else ""))
+        if not (norow and i == 0 and not rattr):
+            L.append("|-" + (" " + attrstr(rattr) if rattr else ""))
         cells = []
         for j in range(c):
             h = hdr == "row0" and i == 0 or hdr == "col0" and j == 0
             cells.append((h, (attrstr(cattr) + " | " if cattr else "") + cont(i, j)))
-        if sep == "nl":
+        pad = "" if sep.endswith("_tight") else " "     # "|x||y" as well as "| x || y"
+        if sep.startswith("nl"):
             for h, t in cells:
-                L.append(("! " if h else "| ") + t)
+                L.append(("!" if h else "|") + pad + t)
         else:
             line = ""
             for idx, (h, t) in enumerate(cells):
                 if idx == 0:
-                    line = ("! " if h else "| ") + t
+                    line = ("!" if h else "|") + pad + t
                 elif h == cells[idx - 1][0]:
-                    line += (" !! " if h else " || ") + t
+                    line += pad + ("!!" if h else "||") + pad + t
                 else:
                     L.append(line)
-                    line = ("! " if h else "| ") + t
+                    line = ("!" if h else "|") + pad + t
             L.append(line)
     L.append("|}")
     return "\n".join(L) + "\n"
@@ -141,9 +145,11 @@ def table_specs(tier):
     maxn = 3 if q else 4
     caps = [None, ("Cap", {}), ("Cap", {"class": "k"}), ("'''C'''", {})]
     for r, c in itertools.product(range(1, maxn + 1), repeat=2):
-        for sep in ("nl", "inline"):
+        for sep in ("nl", "inline", "nl_norow", "inline_norow"):
             for cap in caps:
                 for tattr, rattr, cattr in itertools.product(ATTRS[:3], ATTRS[:2], ATTRS):
+                    if sep.endswith("_norow") and (rattr or tattr):
+                        continue
                     for hdr in ("none", "row0", "col0"):
                         for a, b, cc in itertools.product(range(8), (1, 3), (1, 2)):
                             yield (r, c, sep, cap, tattr, rattr, cattr, hdr, a, b, cc)
@@ -284,10 +290,17 @@ def check_call(ctx, exp, form, args):
         if any("[[" in a or "\n" in a for a in args[:1]) or any("[[" in a for a in args):
             return None, []
         src, kind, head = "[[name" + "".join("|" + a for a in args) + "]]", K.LINK, "name"
-    else:
+    elif form == "extlink":
         if len(args) > 1 or any(("[" in a or "{" in a or "\n" in a) for a in args):
             return None, []
         src, kind, head = "[http://x.y/p" + (" " + args[0] if args and args[0].strip() else "") + "]", K.URL, "http://x.y/p"
+    if form.startswith("extlink:"):
+        # other URL spellings inside the brackets: the URL is everything up to the first blank, as written
+        url = form[8:]
+        if len(args) > 1 or any(("[" in a or "{" in a or "\n" in a) for a in args):
+            return None, []
+        src, kind, head = "[" + url + (" " + args[0] if args and args[0].strip() else "") + "]", K.URL, url
+        form = "extlink"
     ctx.start_page("Tt")
     root = ctx.parse(src)
     nodes = [x for x in root.children if isinstance(x, WikiNode)]
@@ -327,7 +340,8 @@ def work(payload, skip, report):
         _, firsts = payload
         for f0 in firsts:
             for rest in itertools.product(range(len(CONT)), repeat=3):
-                for sep, hdr in itertools.product(("nl", "inline"), ("none", "row0", "col0")):
+                for sep, hdr in list(itertools.product(("nl", "inline"), ("none", "row0", "col0"))) + [("nl_tight", "none"), ("inline_tight", "none"),
+                                                                                                        ("inline_tight", "row0")]:
                     report(i)
                     i += 1
                     src, res = check_full_2x2(ctx, exp, (f0,) + rest, sep, hdr)
@@ -408,13 +422,15 @@ def main(run):
         chunks.append(("nested", k, 8))
     for form in ("template", "parserfn", "param", "link", "extlink"):
         chunks.append(("call", form))
+    for url in URLS:
+        chunks.append(("call", "extlink:" + url))
     for cid, acc, hung in run_chunks(work, chunks, nproc=run.nproc, case_timeout=30):
         run.acc.merge(acc)
     q = run.tier == "quick"
     cov = {
         "distinct_nontrivial": len(run.acc.sets.get("inputs", ())),
         "rule": "tables: rows x columns in 1..%d, newline / inline (|| !!) separators, 4 caption forms, 3 table x 2 row x 4 cell attribute "
-                "maps, 3 header patterns, affine content assignments cell(i,j)=K[(a+b*i+c*j) mod 10] over 10 contents (text, template, two colon-form parser functions, "
+                "maps, 3 header patterns, affine content assignments cell(i,j)=K[(a+b*i+c*j) mod 14] over 14 contents (text, template, two colon-form parser functions, text and a template argument with '=', "
                 "piped link, bold, italic, inline HTML, text with '!', two words); the full product of contents for 2x2 grids; every "
                 "paired and void tag of the allowed-HTML table (special-purpose tags excluded) x 4 attribute maps x 2 quote styles x 6 "
                 "contents; every ordered pair (outer, inner) of those tags where the declared parents/content data permit the nesting, "
